@@ -14,13 +14,13 @@ import itertools
 import re
 from .common import *
 
-RULE = ("(i) exhaustive product, both tiers (quick: the datetime product is thinned 1/4): six formatter names x per option "
+RULE = ("(i) exhaustive product, both tiers: six formatter names x per option "
         "{absent, every accepted value, bogus value, bogus then accepted, accepted then another accepted} x both orders "
         "of two options x {no unknown option, unknown option first, unknown option last} x 6 whitespace paddings "
         "(none, spaces, tab/newline, U+00A0/U+3000/U+2003, only inside, only outside), plus clauses without parentheses, "
         "unknown / mis-cased / empty names and malformed clauses; (ii) 8 locales x 6 kinds x every option combination x "
         "value sets (integers of every width and sign, floats, decimals with trailing zeros, dates from year -44 to "
-        "9999, times, lists of 0..6 items incl. HTML-special and non-ASCII items) + the 68-entry compiled-in table x 8 "
+        "9999, times, lists of 0..6 items incl. HTML-special and non-ASCII items) + the 62-entry compiled-in table x 8 "
         "locales x 2 values x 6 macro flavours; (iii) random sequences of 24..40 requests from a pool, each sequence in "
         "one process; (iv) 16 threads x first use; non-trivial = clause with at least one argument / output differing "
         "from the raw value; distinct = distinct cases")
@@ -85,8 +85,6 @@ def selection_cases(ctx):
                         combos.append(b + a)
                         if len(a) == 2:
                             combos.append([a[0]] + b + [a[1]])   # interleaved repetition
-        if name == "datetime" and ctx.quick:
-            combos = combos[::4]
         for ci, pairs in enumerate(combos):
             for ui in range(3):
                 unk = UNKNOWN_OPTS[(ci + ui) % len(UNKNOWN_OPTS)]
@@ -193,6 +191,10 @@ def check_selection(ctx, binp):
         if len(ctx.samples) < 3 and nontriv and c["src"]["w0"]:
             ctx.sample({"input": c["s"], "impl": got, "spec": c["spec"]})
     ctx.extra["selection_cases"] = len(cases)
+    ctx.extra["exhaustive"] = False
+    ctx.extra["exhaustive_part"] = ("option selection: every combination of per-option states {absent, each accepted value, bogus, "
+                                    "bogus-then-accepted, accepted-then-other} x argument orders x unknown-option position x 6 paddings, "
+                                    "for each of the six formatters")
     ctx.extra["selection_impl_vs_model_mismatches"] = mism
 
 
@@ -297,8 +299,11 @@ def values_for(ctx, kind, rng):
     return LISTS
 
 
-def norm_view(s):
-    return html.unescape(re.sub(r"<!--.*?-->|<!>", "", s))
+def norm_view(s, want=None):
+    """text of a server-rendered text node: markers removed, entities decoded; leptos renders an empty text node as
+    one space (so that a DOM node exists for hydration)"""
+    t = html.unescape(re.sub(r"<!--.*?-->|<!>", "", s))
+    return "" if want == "" and t == " " else t
 
 
 def fmt_key(req):
@@ -344,7 +349,7 @@ def judge_format(ctx, req, r, where):
         report_violation(ctx, "formatting-panics:" + req["f"], {
             "request": req, "expected_by_spec": r["oracle"], "implementation": {"panic": r["impl_panic"]}, "harness": where})
         return False
-    got = {"display": r["display"], "formatter": r["formatter"], "view": norm_view(r["view"])}
+    got = {"display": r["display"], "formatter": r["formatter"], "view": norm_view(r["view"], r["oracle"])}
     bad = {k: v for k, v in got.items() if v != r["oracle"]}
     if bad:
         report_violation(ctx, "output-differs-from-icu4x:" + req["f"], {
@@ -427,7 +432,7 @@ def check_formatting(ctx, binf, binp):
         if not isinstance(tr, dict) or "string" not in tr:
             report_violation(ctx, "formatting-fails", {"request": tq, "implementation": tr, "expected_by_spec": want})
             continue
-        got = {k: (norm_view(v) if k.endswith("view") else v) for k, v in tr.items()}
+        got = {k: (norm_view(v, want) if k.endswith("view") else v) for k, v in tr.items()}
         bad_file = {k: v for k, v in got.items() if not k.startswith("tf_") and v != want}
         bad_tf = {k: v for k, v in got.items() if k.startswith("tf_") and v != want}
         if bad_file:
@@ -456,9 +461,16 @@ def impl_fields(r):
     return {k: v for k, v in r.items() if k not in ("oracle", "oracle_err")}
 
 
+CORPUS_HISTORY = [
+    {"op": "format", "locale": "en", "f": "time", "t": "full", "value": [14, 34, 28]},
+    {"op": "format", "locale": "fr", "f": "number", "g": "auto", "value": {"t": "u64", "v": "1234567"}},
+    {"op": "format", "locale": "en", "f": "time", "t": "medium", "value": [14, 34, 28]},
+]
+
+
 def request_pool(ctx, rng, table, table_opts, n):
-    pool = []
-    seen = set()
+    pool = [{"req": q, "key": fmt_key(q), "steps": 3} for q in CORPUS_HISTORY]
+    seen = set(json.dumps(q, sort_keys=True) for q in CORPUS_HISTORY)
     while len(pool) < n:
         loc = rng.pick(LOCALES)
         if rng.chance(1, 4):
@@ -504,6 +516,12 @@ def check_history(ctx, binf, table, table_opts):
             raise HarnessError("a cache key is both served and refused in fresh processes: " + json.dumps(p["req"]))
     nseq = ctx.budget(200, 2000)
     lreqs, seqs = [], []
+    # corpus (corpus/C18/lock-poisoning-history.json): a formatter ICU4X refuses, then others
+    byreq = {json.dumps(p["req"], sort_keys=True): p for p in pool}
+    corpus = [byreq[json.dumps(q, sort_keys=True)] for q in CORPUS_HISTORY]
+    for seq in ([corpus[0], corpus[1], corpus[0], corpus[2], corpus[1]], corpus[::-1]):
+        seqs.append(seq)
+        lreqs.append({"op": "fmt.cache", "reqs": [k for p in seq for k in [p["key"]] * p["steps"]], "refused": refused})
     for _ in range(nseq):
         k = rng.range(24, 40)
         # a few hot requests so that keys repeat, different requests sharing a key, and cold ones
@@ -516,6 +534,7 @@ def check_history(ctx, binf, table, table_opts):
         lreqs.append({"op": "fmt.cache", "reqs": steps, "refused": refused})
     model = lean_driver(lreqs)
     dependent = 0
+    nseq = len(seqs)
     for seq, m in zip(seqs, model):
         out, crash = run_lines(binf, [{"op": "history", "reqs": [p["req"] for p in seq]}])
         if crash or not out or "outs" not in out[0]:
@@ -609,7 +628,7 @@ def run(ctx):
         "sequence of atomic cache steps (the 16-thread race is support evidence only)",
         "formatters are leaked (Box::leak) and never replaced: cache entries are immutable once inserted",
         "Formatter -> tokens (var_to_view / var_fmt / var_to_display) and rustc's compilation of them are tied by the "
-        "compiled-in table (68 option combinations x 6 macro flavours), not by a theorem",
+        "compiled-in table (62 option combinations x 6 macro flavours x 8 locales), not by a theorem",
         "the harness maps option words to ICU option values by name (trusted, 7 small matches); the macro crate's own "
         "mapping is exercised by the table path",
     ]
